@@ -185,6 +185,7 @@ def _kind_of(body, env, cls):
                 for l in lps:
                     seen = set()
                     okl = True
+                    accs = set()
                     for p in paths.enum_paths(l.body):
                         ev = expr.path_events(p, env)
                         stm = [x[1] for x in ev if x[0] == 's']
@@ -197,9 +198,17 @@ def _kind_of(body, env, cls):
                             okl = okl and stm[1:] == [] and p.end[0] == 'break'
                         else:
                             seen.add('keep')
-                            okl = okl and stm[1:] == ['self.extra.append(s_number)'] and p.end[0] == 'fall'
-                    good = good or (okl and seen == {'end', 'keep'})
-                if good and 'self.extra = []' in src:
+                            # the list the numbers go to: self.extra itself, or a fresh local list that becomes self.extra after the loop
+                            okl = okl and len(stm) == 2 and stm[1].endswith('.append(s_number)') and p.end[0] == 'fall'
+                            if okl:
+                                accs.add(stm[1][:-len('.append(s_number)')])
+                    if okl and seen == {'end', 'keep'} and len(accs) == 1:
+                        acc = accs.pop()
+                        flat = [U(x) for x in st.body]
+                        if l in st.body and flat[:st.body.index(l)].count(acc + ' = []') == 1 and \
+                                (acc == 'self.extra' or (acc.isidentifier() and flat[st.body.index(l) + 1:] == ['self.extra = ' + acc])):
+                            good = True
+                if good:
                     sig.append('uleb-list?')      # applies to the non-FILE keys of the branch
             elif t == 'type(self.value.value) is not str':
                 src = U(st)
